@@ -73,7 +73,7 @@ fn main() {
     ctx.run_slice(Slice::new(format!("fusion-long-legs[{} cospan pairs, up to {} nodes]", gp.len(), gp.iter().map(|p| p.1.nodes.len() + p.2.nodes.len()).max().unwrap_or(0)), gp.len() as u64, |i, loc| check_fusion::<B>(&gp[i as usize].1, &gp[i as usize].2, loc)).heavy());
     // dagger laws on large diagrams (sizes 33 .. 129)
     let sizes: Vec<usize> = if ctx.quick() { vec![33, 65] } else { vec![33, 64, 65, 129] };
-    let big: Vec<_> = ohmc::props::structured::shapes_at(&sizes, false).into_iter().map(|x| x.1).collect();
+    let big: Vec<_> = ohmc::props::structured::shapes_at_labelled(&sizes, false).into_iter().map(|x| x.1).collect();
     ctx.run_slice(Slice::new(format!("dagger-structured-large[sizes {:?}: {} diagrams]", sizes, big.len()), big.len() as u64, |i, loc| check_dagger::<B>(&big[i as usize], loc)));
     let big2: Vec<_> = big.iter().step_by(4).cloned().collect();
     let nb2 = big2.len() as u64;
